@@ -5,6 +5,7 @@
 package smt
 
 import (
+	"strconv"
 	"fmt"
 	"math/bits"
 	"sort"
@@ -64,6 +65,8 @@ type FuncSig struct {
 
 // Ctx interns terms and records declarations.
 type Ctx struct {
+	bvarMemo  map[int]bool
+	substMemo map[string]*Term
 	tab    map[string]*Term
 	next   int
 	Funcs  map[string]*FuncSig
@@ -82,20 +85,29 @@ func NewCtx() *Ctx {
 }
 
 func (c *Ctx) key(t *Term) string {
-	var sb strings.Builder
-	sb.WriteString(t.Op)
-	sb.WriteByte('|')
-	sb.WriteString(t.Name)
-	sb.WriteByte('|')
-	sb.WriteString(t.Sort.Name)
-	fmt.Fprintf(&sb, "|%d|%d|%d|%d", t.Sort.W, t.Val, t.P1, t.P2)
+	b := make([]byte, 0, 64+12*len(t.Args))
+	b = append(b, t.Op...)
+	b = append(b, '|')
+	b = append(b, t.Name...)
+	b = append(b, '|')
+	b = append(b, t.Sort.Name...)
+	b = append(b, '|')
+	b = strconv.AppendInt(b, int64(t.Sort.W), 10)
+	b = append(b, '|')
+	b = strconv.AppendUint(b, uint64(t.Val), 10)
+	b = append(b, '|')
+	b = strconv.AppendInt(b, int64(t.P1), 10)
+	b = append(b, '|')
+	b = strconv.AppendInt(b, int64(t.P2), 10)
 	for _, a := range t.Args {
-		fmt.Fprintf(&sb, ",%d", a.ID)
+		b = append(b, ',')
+		b = strconv.AppendInt(b, int64(a.ID), 10)
 	}
 	for _, v := range t.Vars {
-		fmt.Fprintf(&sb, ";%d", v.ID)
+		b = append(b, ';')
+		b = strconv.AppendInt(b, int64(v.ID), 10)
 	}
-	return sb.String()
+	return string(b)
 }
 
 func (c *Ctx) mk(t *Term) *Term {
@@ -805,14 +817,70 @@ func HasQuant(t *Term) bool {
 }
 
 // Subst replaces terms according to m (keys are usually bound variables).
+// hasBVar: t contains a bound variable (memoised per term: terms are immutable).
+func (c *Ctx) hasBVar(t *Term) bool {
+	if t.Op == "bvar" {
+		return true
+	}
+	if len(t.Args) == 0 {
+		return false
+	}
+	if r, ok := c.bvarMemo[t.ID]; ok {
+		return r
+	}
+	r := false
+	for _, a := range t.Args {
+		if c.hasBVar(a) {
+			r = true
+			break
+		}
+	}
+	if c.bvarMemo == nil {
+		c.bvarMemo = map[int]bool{}
+	}
+	c.bvarMemo[t.ID] = r
+	return r
+}
+
 func (c *Ctx) Subst(t *Term, m map[*Term]*Term) *Term {
 	memo := map[int]*Term{}
+	// substitution of bound variables only (the common case) never changes a
+	// subterm without bound variables
+	onlyBV := true
+	for k := range m {
+		if k.Op != "bvar" {
+			onlyBV = false
+		}
+	}
+	// the same instance is asked for again by every obligation of a function
+	var ckey string
+	if onlyBV && len(m) <= 4 {
+		ids := make([][2]int, 0, len(m))
+		for k, v := range m {
+			ids = append(ids, [2]int{k.ID, v.ID})
+		}
+		sort.Slice(ids, func(i, j int) bool { return ids[i][0] < ids[j][0] })
+		b := strconv.AppendInt(nil, int64(t.ID), 10)
+		for _, p := range ids {
+			b = append(b, '|')
+			b = strconv.AppendInt(b, int64(p[0]), 10)
+			b = append(b, '>')
+			b = strconv.AppendInt(b, int64(p[1]), 10)
+		}
+		ckey = string(b)
+		if r, ok := c.substMemo[ckey]; ok {
+			return r
+		}
+	}
 	var rec func(t *Term) *Term
 	rec = func(t *Term) *Term {
 		if r, ok := m[t]; ok {
 			return r
 		}
 		if len(t.Args) == 0 {
+			return t
+		}
+		if onlyBV && !c.hasBVar(t) {
 			return t
 		}
 		if r, ok := memo[t.ID]; ok {
@@ -833,7 +901,14 @@ func (c *Ctx) Subst(t *Term, m map[*Term]*Term) *Term {
 		memo[t.ID] = r
 		return r
 	}
-	return rec(t)
+	res := rec(t)
+	if ckey != "" {
+		if c.substMemo == nil {
+			c.substMemo = map[string]*Term{}
+		}
+		c.substMemo[ckey] = res
+	}
+	return res
 }
 
 // Rebuild re-applies t's operator to new arguments (with simplification).
@@ -910,6 +985,14 @@ func (c *Ctx) Rebuild(t *Term, a []*Term) *Term {
 func (t *Term) String() string {
 	var sb strings.Builder
 	printTree(&sb, t, nil, 0)
+	return sb.String()
+}
+
+// SMT renders t as an SMT-LIB term with shared subterms bound by `let`
+// (linear in the size of the DAG; String prints a tree).
+func (t *Term) SMT() string {
+	var sb strings.Builder
+	printLets(&sb, t, nil, 0)
 	return sb.String()
 }
 
